@@ -45,3 +45,13 @@ OBLIGATIONS += [
     ob("c08.f.scrypt.needs_rehash", "harness/pwhash_misc.c", "hf_scrypt_needs_rehash", ["crypto_pwhash_scryptsalsa208sha256_str_needs_rehash"], "scrypt needs_rehash: -1 malformed, 1 different parameters, 0 equal",
        defs=["-DPART=1"], assumes=SCA, cbmc=["--unwind", "114", "--unwinding-assertions"], bound="values: string length <= 110"),
 ]
+
+SCC = ["escrypt_kdf_nosse / escrypt_kdf_sse are an assumed callee (arbitrary 32-byte hash or failure); strchr / strrchr / strlen are CBMC's models"]
+OBLIGATIONS += [
+    ob("c08.f.scrypt.codec.gensalt_parse", "harness/scrypt_codec.c", "hf_gensalt_parse", ["escrypt_gensalt_r", "escrypt_parse_setting", "encode64", "encode64_uint32", "decode64_uint32", "decode64_one"],
+       "\"$7$\" settings: for every N_log2 <= 63, r*p < 2^30 and 32 salt bytes the setting has the documented layout, exact size 58, alphabet characters only, and parse_setting returns the same parameters", assumes=SCC, cbmc=["--unwind", "70", "--unwinding-assertions"]),
+    ob("c08.f.scrypt.codec.parse", "harness/scrypt_codec.c", "hf_parse", ["escrypt_parse_setting", "decode64_uint32", "decode64_one"],
+       "parse_setting on arbitrary NUL-free 16-byte prefixes: accepted exactly for \"$7$\" + 11 alphabet characters, values decoded exactly", assumes=SCC, cbmc=["--unwind", "70", "--unwinding-assertions"]),
+    ob("c08.f.scrypt.codec.escrypt_r", "harness/scrypt_codec.c", "hf_escrypt_r", ["escrypt_r", "encode64", "escrypt_parse_setting"],
+       "escrypt_r string assembly: buffer-size guard before hashing, KDF parameters taken from the setting (N = 2^N_log2), output = setting || '$' || 43-character hash || NUL, failure of the KDF propagated, output randomised first; every salt length <= 43", assumes=SCC, cbmc=["--unwind", "110", "--unwinding-assertions"], bound="values: salt <= 43 characters, buffer <= 102 bytes (the sizes of the public API)"),
+]
